@@ -6,6 +6,15 @@ TECH = "machine-checked proof in Coq over a model tied to the source by a transl
 C = {
  'C01': ("Unbounded Coq theorems (any hash H): on intact content the modelled piece reader yields exactly the L-sized chunks of the files' concatenation for every layout / piece length / handle table; chunk count = ceil(size/L), only the last chunk short, digest string length. Model tied to torf by a correspondence run (real iter_pieces vs extracted model) and by real Torrent.generate(threads=1..8) against sha1-of-chunks.",
          "The thread pipeline between reader and stored string is covered here only by real-thread runs (its model/theorems are C03's); SHA-1 abstract in theorems; Coq kernel, extract.py, extraction, harness trusted."),
+
+ 'C06': ("Unbounded Coq theorems: the byte string hashed by infohash is a contiguous span of the dumped bytes - the value following the key 'info' (fuel-generic compositionality of the converter + encoder); every dictionary is emitted with strictly increasing raw-byte keys (no duplicates). The shapes of dump/convert/infohash/encode_dict/encode_value are fail-closed facts of the translator. Tie: model dump and hashed bytes compared with real torf on exportable metainfo of all converter-accepted value types and several object origins; an independent strict bencode parser locates the info span and checks sha1 == infohash == base32 == magnet hash == written file.",
+         "SHA-1 and base32 are not modelled (identity of hashed bytes is what is proved); text is modelled by its UTF-8 bytes (order preservation of UTF-8 trusted); minimal-integer encoding and 'no trailing data' are checked by the strict parser on the implementation side, not proved."),
+ 'C07': ("Unbounded Coq theorems over the validate model driven by the rule table regenerated from the source: validate = Ok implies structural soundness (info dict, str/bytes name, positive 16KiB-multiple piece length, non-empty pieces of 20*ceil(size/L) bytes, exactly one of length/files, non-negative single-file length, well-formed announce URL); dump/infohash return only after successful validation; is_ready iff validate succeeds. 'MetainfoError and nothing else' is refuted on the faithful model (witness theorem: >4300-digit int) and the remaining exception leaks are known findings. Tie: ~1.5k structure-aware mutants per quick run compared between model and real torf on validate/is_ready/dump/infohash + independent soundness oracle on dumped bytes.",
+         "Per-file entry soundness (Mapping, non-negative length, str/bytes path components) is enforced by the extracted rules and tested by the oracle but the theorem states it only through the summed size; non-sequence iterables for files/announce-list/path are outside the model (oracle only); is_url is a parameter of the theorems (concrete approximation validated on a URL pool)."),
+ 'C08': ("Unbounded Coq theorems over ALL byte strings: the model of flatbencode's stack-machine decoder fails only with DecodingError/ValueError/OverflowError; read_stream without validation returns or fails with the decode or metainfo error only (the except clauses are regenerated from the source); a torrent returned with validation validates. Tie: model vs real read_stream (+ validate/dump of the result) on valid, structure-mutated, random and token-soup inputs; oracle: documented errors only, linear time budget; Magnet.from_string: oracle only.",
+         "Typed errors for read_stream WITH validation and for validate/dump of a returned torrent are covered by correspondence + oracle, not by a theorem; time/memory bounds are measured (wall time), not proved; recursion depth between 300 and 1000 is interpreter-state dependent and compared by class only."),
+ 'C17': ("Unbounded Coq theorems over the effect model whose ORDER of effects (existence check, dump, open / dump, seek+truncate, write) is regenerated from the source: any failing write leaves the target exactly as it was, refusal without overwrite raises WriteError, success leaves exactly the dumped bytes, write_stream touches the stream only after the complete content exists. Tie: real Torrent.write/write_stream on absent/existing/directory/unopenable targets and seekable/non-seekable/failing streams with prior content, for valid, mutated and unconvertible metainfo.",
+         "File-system effects are those of open(...,'wb')/truncate as modelled (create-or-truncate on open); the sandbox runs as root, so 'unwritable' is exercised as ENOTDIR."),
  'C10': ("Coq theorems: (unbounded) with no bad file every piece is exact and nothing is reported; (bounded, decided in Coq by vm_compute + forallb_forall, bound in the statement) for all damage plans over the listed size sets / L in {2,3,4} / up to 4 files the modelled iter_pieces meets the full C10 specification; zero-length bad entries refuted (witness theorems, known findings). The model (incl. the remove-while-iterating loop of _MissingPieces) is tied to torf by a correspondence run on ~2.5k (quick) layouts x damage plans and an independent spec oracle on the real items.",
          "The unbounded refinement for arbitrary damage plans is not proved (bounded theorem + correspondence instead); files on disk do not change during iteration."),
  'C11': ("Unbounded Coq theorems: every geometry method of the stream equals its arithmetic definition on the concatenated stream (prefix-sum offsets) for all layouts/piece lengths; the arithmetic sub-expressions of the methods are regenerated from /repo's source on each run, the list/loop structure is hand-modelled and tied by a correspondence run (model extracted to OCaml vs real torf on ~60k queries) plus a brute-force byte-ownership oracle that yields replays. Zero-length-file clauses are refuted on the faithful model (witness theorems) and recorded as known findings.",
